@@ -128,6 +128,9 @@ func (p *Parser) Parse(buf []byte, args ...any) (any, error) {
 		p.starts = p.starts[:0]
 	}
 	p.result = nil
+	p.plus = false
+	p.lastKey = emptyKey
+	p.lastStrKey = emptyKey
 	p.noff = -1
 	p.line = 1
 	p.mode = valueMap
@@ -196,6 +199,9 @@ func (p *Parser) ParseReader(r io.Reader, args ...any) (data any, err error) {
 		p.starts = p.starts[:0]
 	}
 	p.result = nil
+	p.plus = false
+	p.lastKey = emptyKey
+	p.lastStrKey = emptyKey
 	p.noff = -1
 	p.line = 1
 	p.mi = 0
